@@ -17,7 +17,7 @@ RULE_TEXT = (
     "1728 triples on one key (a third of them as Offer / StopOffer / Find of a watched service, a third as Offer with TTL 1 / Find / a message after the expiry: the sender's services come and go, its session record must stay), "
     "6912 interference cases (a on K, x on another sender / the other channel / both / another port of the same host, b on K); random walks of "
     "20-2000 messages over 3 hosts x 2 ports x 2 channels with random 16-bit ids, offers and stop-offers of a watched service with short TTLs, foreign and undecodable datagrams, coalesced messages, "
-    "duplicates and reordered copies. non-trivial = at least one message had a predecessor on its key; distinct = interleaving signature; "
+    "duplicates and reordered copies, the node stopped and started in between, and in some walks a crowd of 130-600 further senders heard once. non-trivial = at least one message had a predecessor on its key; distinct = interleaving signature; "
     "distinct_model_states counts distinct (previous symbol, symbol, outcome) transitions observed"
 )
 PROBES = ["unicast_flag_clear_messages", "detections", "non_detections_with_history", "foreign_datagrams", "undecodable_sd", "coalesced", "wrap_set_to_clear"]
@@ -99,7 +99,14 @@ def random_plan(seed, idx):
     ops = []
     t = 0.1
     sent = []
+    crowd_at = r.randrange(n) if r.random() < 0.06 else None
     for j in range(n):
+        if j == crowd_at:
+            # a crowd of further senders (ports of the three hosts, both channels) is heard in between: the records of
+            # the senders of this history are still there afterwards
+            for q in range(r.choice([130, 256, 300, 600])):
+                t = round(t + 0.0005, 6)
+                ops.append(msg(t, q % 3, "um"[(q // 3) % 2], (1, r.choice(SIDS)), port=42000 + q // 6))
         t = round(t + r.choice([0.0, 0.0, 0.001, 0.01, 0.5, 1.2 if n <= 100 else 0.01]), 6)
         p = r.randrange(3)
         ch = r.choice("um")
